@@ -37,6 +37,7 @@ def run(S):
     bump(S, D, W)
     package_feerate(S, D)
     locktime_and_output(S, D, W)
+    merge(S, D)
 
 
 def estimator(E):
@@ -201,3 +202,46 @@ def locktime_and_output(S, D, W):
             'unless the output was clamped to dust, the fee actually paid (inputs - output) corresponds to the reported feerate', [bo], split=cases)
     S.no_panic('C07.c.nopanic', E, pre, 'no overflow / failed assert for admitted inputs', [bo])
     S.witness('C07.c.witness', E, pre + [prev != 0], z3.And(some, out > dust.t))
+
+
+def merge(S, D):
+    """C07.f: merging two claim packages keeps the most urgent schedule of the two"""
+    from .pkg_common import oracle_input_args
+    E = S.engine(unwind=4)
+    E.slice_cap = 1
+    mem = {}
+    f = S.fn('merge_package', first_param='PackageTemplate')
+    can = z3.Bool('env.can_merge')
+    E.models.insert(0, (re.compile(r'PackageTemplate::can_merge_with$'), lambda *a: X.B(can)))
+    a = E.sym('pa', f.params[0][1], mem)
+    bval = E.sym('pb', f.params[1][1], mem)
+    h = E.sym('h', 'u32')
+    before = mem[a.cell]
+
+    def g(v, nm, ty):
+        return field(E, D, 'PackageTemplate', nm, v, ty).t
+    a_csh, a_fr, a_ht = g(before, 'counterparty_spendable_height', 'u32'), g(before, 'feerate_previous', 'u64'), g(before, 'height_timer', 'u32')
+    b_csh, b_fr, b_ht = g(bval, 'counterparty_spendable_height', 'u32'), g(bval, 'feerate_previous', 'u64'), g(bval, 'height_timer', 'u32')
+    PT = D.struct_fields('PackageTemplate')
+    a_in = E.read_path(before, (('f', PT.index('inputs'), 'Vec<(bitcoin::OutPoint, package::PackageSolvingData)>'),), mem, True, 'spec')
+    b_in = E.read_path(bval, (('f', PT.index('inputs'), 'Vec<(bitcoin::OutPoint, package::PackageSolvingData)>'),), mem, True, 'spec')
+    rv = S.call(E, f, [a, bval, h], mem)
+    after = mem[a.cell]
+    ok = X.zint(rv.d) == 0
+    n_csh, n_fr, n_ht = g(after, 'counterparty_spendable_height', 'u32'), g(after, 'feerate_previous', 'u64'), g(after, 'height_timer', 'u32')
+    n_in = E.read_path(after, (('f', PT.index('inputs'), 'Vec<(bitcoin::OutPoint, package::PackageSolvingData)>'),), mem, True, 'spec')
+    mn = lambda x, y: z3.If(x <= y, x, y)
+    # native probe: two single revoked-output packages (mergeable when neither is close to its CSV height)
+    native = [X.zint(a_in.n) == 1, X.zint(b_in.n) == 1, can, a_csh > h.t + 12, b_csh > h.t + 12, h.t < (1 << 30), a_csh < (1 << 30), b_csh < (1 << 30)]
+    b = Binding('merge_probe', [z3.IntVal(1), z3.IntVal(0), z3.IntVal(0), z3.BoolVal(False), z3.IntVal(1000), a_csh, a_fr, a_ht,
+                                z3.IntVal(1), z3.IntVal(0), z3.IntVal(0), z3.BoolVal(False), z3.IntVal(1000), b_csh, b_fr, b_ht, h.t],
+                [z3.If(ok, 1, 0), n_csh, n_fr, n_ht, X.zint(n_in.n)])
+    S.prove('C07.f.merge_keeps_most_urgent', E, [can], z3.And(ok, n_csh == mn(a_csh, b_csh), n_ht == mn(a_ht, b_ht), n_fr == mn(a_fr, b_fr),
+            X.zint(n_in.n) == X.zint(a_in.n) + X.zint(b_in.n)),
+            'a merged claim package is scheduled by the earlier of the two counterparty-spendable heights and the earlier bump timer, keeps every input of both packages, and restarts from the lower previous feerate',
+            bounds='packages of <= 1 input each (inputs are only moved), all heights / feerates')
+    S.prove('C07.f.merge_native', E, native, z3.And(ok, n_csh == mn(a_csh, b_csh), n_ht == mn(a_ht, b_ht), n_fr == mn(a_fr, b_fr), X.zint(n_in.n) == 2),
+            'replayable form of the same claim on two single-input revoked-output packages', [b])
+    S.prove('C07.f.refused_merge_changes_nothing', E, [z3.Not(can)], z3.And(z3.Not(ok), n_csh == a_csh, n_ht == a_ht, n_fr == a_fr, X.zint(n_in.n) == X.zint(a_in.n)),
+            'a refused merge leaves the package untouched')
+    S.no_panic('C07.f.nopanic', E, [], 'merge_package is total')
